@@ -930,7 +930,8 @@ class VarsManager(object):
 
     @contextlib.contextmanager
     def temp_params(self, params):
-        old_params = {i: self.get(i) for i in params.keys()}
+        # set_all takes values without the bound transformation
+        old_params = {i: self.get(i, val_in_fit=False) for i in params.keys()}
         try:
             self.set_all(params)
             yield
